@@ -268,10 +268,12 @@ def body(case):
 
         # coupled chain at level >= 1
         cp = CouplingMarkovChain(model=model, method=method, grid=grid)
-        cp.initialisation(product, max_step_epsilon=eps)
+        # the requested step shrinks from level to level (CouplingSDE passes (h/2)^beta): the last request applies
+        eps0 = None if eps is None else eps * 2 ** case["level"]
+        cp.initialisation(product, max_step_epsilon=eps0)
         cp.pre_computation(1, product)
-        for _ in range(case["level"]):
-            cp.next_level(1, None, product, max_step_epsilon=eps)
+        for lev in range(1, case["level"] + 1):
+            cp.next_level(1, None, product, max_step_epsilon=None if eps is None else eps * 2 ** (case["level"] - lev))
         fine = cp.fine_process
         _script(fine, case, normal)
         g = cp.grid
